@@ -26,6 +26,7 @@ func init() {
 		// generous internal deadline: the run takes 1-2 minutes on an idle machine and several times that next to other jobs
 		QuickBudget: 900,
 		Rule: "G1 capture/shadowing: all combinations of {assignment before definition, between definition and call, after the first call} x 12 body shapes (read, :=, +=, derived local, inner closure created before a local reassignment, inner assignment, closure returned and called later, sibling closures sharing a frame, two-variable shadowing, closure over a parameter, nested definition scopes) x wrapper nesting 0..2; " +
+			"G15 rebinding to the same object: 13 values x 12 ways of binding a name again in an inner scope to the object (or an equal cached value) the enclosing variable of that name holds x 2 later reassignments of the enclosing variable x nesting 0..1, a closure made in the inner scope read before and after the reassignment; " +
 			"G2 binding: parameter lists {0..3 positional} x {0..2 keyword} x every argument list of length <=5 (thorough 6) over {positionals, k:, j:, unknown z:, *[0..2 elements], **{k}, **{j,k}, **{w,b}; up to two ** with disjoint names} respecting the grammar, probing parameters and \\ \\N \\0 \\name \\_; " +
 			"G3 receiver passing: function vs method properties x call forms (o.p(x), o['p](o,x), extracted) x anonymous chains in functions, methods and nested literal calls; G4 recursion depth 0..4 with per-frame locals and escaping closures; " +
 			"G5 every sequence of <=2 (thorough 3) calls over 10 argument lists that unpack the same objects/arrays held in variables (**opts, **opts **extra, *xs *xs, k: with **, method call last), printing what each call received and the unpacked objects afterwards; " +
@@ -793,6 +794,46 @@ func genG14(emit func(tcase)) {
 	emit(tcase{Family: "G14/curry", Src: "add := {|a, b| a + b}\n(add.curry)(1)(2)", Val: "3", NT: true})
 }
 
+// G15: a name bound again in an inner scope (x := x, a parameter, a keyword parameter, a local literal, a block
+// parameter, an iterator parameter) to the very object - or to an equal cached value - the enclosing variable of the
+// same name holds is the call's OWN variable: closures made there keep it when the enclosing variable is reassigned.
+func genG15(emit func(tcase)) {
+	vals := [][2]string{{"true", "true"}, {"false", "false"}, {"nil", "nil"}, {"0", "0"}, {"1", "1"}, {"5", "5"}, {"100", "100"}, {"-1", "-1"}, {"1.5", "1.500000"},
+		{"\"s\"", "\"s\""}, {"'sym", "\"sym\""}, {"[1]", "[1]"}, {"{a: 1}", "{\"a\": 1}"}}
+	ways := []struct{ name, def, use string }{
+		{"assign-self", "mk := {|| x := x; {|| x}}", "c := mk()"},
+		{"positional-parameter", "mk := {|x| {|| x}}", "c := mk(x)"},
+		{"keyword-parameter", "mk := {|x: 99| {|| x}}", "c := mk(x: x)"},
+		{"equal-literal", "mk := {|| x := LIT; {|| x}}", "c := mk()"},
+		{"block-parameter", "", "c := [x]@{|x| {|| x}}[0]"},
+		{"method-parameter", "o := {mk: m{|x| {|| x}}}", "c := o.mk(x)"},
+		{"parameter-then-assign-self", "mk := {|x| x := x; {|| x}}", "c := mk(x)"},
+		{"local-from-other-parameter", "mk := {|y| x := y; {|| x}}", "c := mk(x)"},
+		{"right-assign-self", "mk := {|| x => x; {|| x}}", "c := mk()"},
+		{"iterator-parameter", "", "it := <{|x| yield x; recur(x)}>.new(x)\nc := {|| it.next}"},
+		{"expansion", "mk := {|x| {|| x}}", "c := mk(*[x])"},
+		{"keyword-expansion", "mk := {|x: 99| {|| x}}", "c := mk(**{x: x})"},
+	}
+	for _, val := range vals {
+		for _, w := range ways {
+			for _, nw := range [][2]string{{"42", "42"}, {"\"new\"", "\"new\""}} {
+				for depth := 0; depth <= 1; depth++ {
+					lines := []string{"x := " + val[0]}
+					if w.def != "" {
+						lines = append(lines, strings.ReplaceAll(w.def, "LIT", val[0]))
+					}
+					lines = append(lines, w.use, "first := c()", "x := "+nw[0], "[first, c(), x]")
+					src := strings.Join(lines, "\n")
+					if depth == 1 {
+						src = "{||\n" + src + "\n}()"
+					}
+					emit(tcase{Family: "G15/" + w.name, Src: src, Val: "[" + val[1] + ", " + val[1] + ", " + nw[1] + "]", NT: true})
+				}
+			}
+		}
+	}
+}
+
 // ---------------------------------------------------------------- judging
 
 func judge(c *core.Ctx, t tcase, o panrun.Obs) {
@@ -845,6 +886,7 @@ func gen(thorough bool, emit func(tcase)) {
 	genG12(emit)
 	genG13(emit)
 	genG14(emit)
+	genG15(emit)
 	if thorough {
 		genG5(3, emit)
 	} else {
